@@ -7,6 +7,8 @@
      REG <n> <type 0 Ingester|1 Query|2 Combined> <status 0 Healthy|1 Suspected|2 Failed|3 Draining> <load>
          [<capacity> <shards s+s+..|-> <addr variant> <heartbeat age s>]   (capacity/addr/age: ignored by the model)
      ST <n> <status> | HB <n> | DR <n> | LD <n> <load> | RM <n>
+     AG <n> <secs>                the node's last heartbeat is set <secs> seconds into the past
+     HC <timeout> <n:age,...|->   one sweep of run_health_checks (ages in whole seconds)
      RB <order>                   order = n,n,... registry iteration order ("-" = empty)
      RT <shard> <order>
      RTI <shard> <order|order|..> <spec>   (iteration order before the call, then at every pause point: another
@@ -100,6 +102,12 @@ let run_line (line : string) : string =
            | ["DR"; n] -> apply (ODrain (n_of_string n))
            | ["LD"; n; load] -> apply (OLoad (n_of_string n, n_of_string load))
            | ["RM"; n] -> apply (ORemove (n_of_string n))
+           | ["AG"; _; _] -> emit "-"   (* heartbeat age set by the harness; reaches the model through HC *)
+           | ["HC"; t; ages] ->
+               let ages = if ages = "-" then [] else
+                   List.map (fun kv -> match split_on ':' kv with
+                       | [n; a] -> (n_of_string n, z_of_string a) | _ -> failwith "bad age") (split_on ',' ages) in
+               apply (OHealthCheck (z_of_string t, ages))
            | ["RB"; o] -> apply (ORebalance (order_of o))
            | ["RB"] -> apply (ORebalance [])
            | ["RT"; s; o] -> apply (ORoute (n_of_string s, order_of o))
